@@ -36,7 +36,17 @@ def main(tier, replay, t0):
             cells[(o["ty"], o.get("id") is not None, o.get("default") is not None)] = 1
         for x in c.cfgs:
             base = {"case_id": c.id, "wgsl": c.wgsl, "options": x["opt"], "overrides": spec.overrides}
-            if c.gen[x["id"]].get("result") != "ok":
+            g = c.gen[x["id"]]
+            if g.get("result") not in ("ok", "err", "panic"):
+                continue
+            if g.get("result") != "ok":
+                # naga accepts the shader (not frontend_rejected) and nothing in the entry
+                # family is outside the documented support: a refusal leaves the user without
+                # any constants struct for a valid override set
+                why = g.get("err_kind") or (g.get("panic") or "panic").split(" @ ")[0][:60]
+                viol.append(Violation("override-set-refused", str(why),
+                                      "generation fails for a shader with a valid set of "
+                                      "overrides: %s %s" % (why, g.get("display") or ""), base))
                 continue
             if not camp.module_ok(c.id, x["id"]):
                 bad = [d for d in probes.unexpected_rejection(camp, c.id, x["id"])
